@@ -982,9 +982,9 @@ class SmiV2Parser(AbstractParser):
                        | Compliance"""
         n = len(p)
         if n == 3:
-            p[0] = p[1] and p[2] and ('Compliances', p[1][1] + [p[2]]) or p[1]
+            p[0] = ('Compliances', p[1][1] + (p[2] and [p[2]] or []))
         elif n == 2:
-            p[0] = p[1] and ('Compliances', [p[1]]) or None
+            p[0] = ('Compliances', p[1] and [p[1]] or [])
 
     def p_Compliance(self, p):
         """Compliance : ComplianceGroup
